@@ -59,6 +59,41 @@ Qed.
 Lemma is_m_le m v : is_m m v <= 1.
 Proof. unfold is_m. destruct v as [x|]; [destruct (Nat.eqb x m)|]; lia. Qed.
 
+Definition relf (f : nat) (s' : wst) (a : nat) : wst :=
+  match gslot s' a with Some m2 => unlock f (set_slot s' a None) m2 | None => s' end.
+
+Lemma gslot_lt s a m : gslot s a = Some m -> a < length (slots s).
+Proof.
+  intros E. destruct (le_lt_dec (length (slots s)) a) as [G|G]; [|exact G].
+  unfold gslot in E. rewrite nth_overflow in E by exact G. discriminate.
+Qed.
+
+Lemma slot_none_wi s i : WI s None -> i < length (slots s) -> WI (set_slot s i None) (gslot s i).
+Proof.
+  intros I Li. constructor.
+  - intros m. change (gmx (set_slot s i None) m) with (gmx s m). unfold held. cbn [set_slot slots].
+    pose proof (heldl_set (slots s) i None m Li) as H. pose proof (w_cnt s _ I m) as C. unfold held, gslot in *.
+    cbn [is_m] in *. lia.
+  - apply (w_wait s _ I).
+  - intros m k Hk. cbn [set_slot slots wts]. rewrite set_nth_length. apply (w_tgt s _ I m k Hk).
+  - apply (w_err s _ I).
+Qed.
+
+(* the callback's own release() calls, given the statement for hand-over chains with this fuel *)
+Lemma rel_fold_inv f :
+  (forall s m, WI s (Some m) -> pending s <= f -> WI (unlock f s m) None /\ pending (unlock f s m) <= pending s) ->
+  forall l s, WI s None -> pending s <= f ->
+  WI (fold_left (relf f) l s) None /\ pending (fold_left (relf f) l s) <= pending s.
+Proof.
+  intros H. induction l as [|a l IHl]; intros s I P; cbn [fold_left]; [split; [exact I|lia]|].
+  assert (Q : WI (relf f s a) None /\ pending (relf f s a) <= pending s).
+  { unfold relf. destruct (gslot s a) as [m2|] eqn:E; [|split; [exact I|lia]].
+    pose proof (slot_none_wi s a I (gslot_lt s a m2 E)) as I1. rewrite E in I1.
+    assert (P' : pending (set_slot s a None) <= f) by exact P.
+    destruct (H (set_slot s a None) m2 I1 P') as [A B]. split; [exact A|exact B]. }
+  destruct Q as [I1 P1]. destruct (IHl (relf f s a) I1 ltac:(lia)) as [A B]. split; [exact A|lia].
+Qed.
+
 (* the hand-over chain: one grant of m is in flight *)
 Lemma unlock_inv fuel : forall s m, WI s (Some m) -> pending s <= fuel ->
   WI (unlock fuel s m) None /\ pending (unlock fuel s m) <= pending s.
@@ -130,11 +165,14 @@ Proof.
           cbn [waitq]. intros Hk. apply (w_tgt s _ I m). rewrite Q. right. exact Hk.
         - apply (w_err s _ I). }
       assert (P3 : pending s3 <= f) by (change (pending s3) with (pending s2); lia).
-      change (match gslot s2 j with Some m' => unlock f s3 m' | None => s3 end) with
-             (match gslot s2 j with Some m' => unlock f s3 m' | None => s3 end).
-      destruct (gslot s2 j) as [m'|] eqn:Old.
-      * destruct (IH s3 m' I3 P3) as [A B]. split; [exact A|]. change (pending s3) with (pending s2) in B. lia.
-      * split; [exact I3|]. change (pending s3) with (pending s2). lia.
+      fold (relf f).
+      assert (S4 : WI (match gslot s2 j with Some m' => unlock f s3 m' | None => s3 end) None /\
+                   pending (match gslot s2 j with Some m' => unlock f s3 m' | None => s3 end) <= pending s2).
+      { destruct (gslot s2 j) as [m'|] eqn:Old.
+        - destruct (IH s3 m' I3 P3) as [A B]. split; [exact A|]. change (pending s3) with (pending s2) in B. exact B.
+        - split; [exact I3|]. change (pending s3) with (pending s2). lia. }
+      destruct S4 as [I4 P4].
+      destruct (rel_fold_inv f IH (wrel (gwt s2 k)) _ I4 ltac:(lia)) as [A B]. split; [exact A|lia].
 Qed.
 
 (* giving one ownership of v up / putting it in flight *)
@@ -176,11 +214,22 @@ Qed.
 
 Definition shape (s : wst) : Prop := length (mxs s) = NM /\ length (slots s) = NS.
 
+Lemma shape_set_slot0 s j v : shape s -> shape (set_slot s j v).
+Proof. intros [A B]. split; cbn [set_slot mxs slots]; rewrite ?set_nth_length; assumption. Qed.
+
+Lemma relfold_shape f : (forall s m, shape s -> shape (unlock f s m)) ->
+  forall l s, shape s -> shape (fold_left (relf f) l s).
+Proof.
+  intros H. induction l as [|a l IHl]; intros s S; cbn [fold_left]; [exact S|]. apply IHl.
+  unfold relf. destruct (gslot s a); [apply H; apply shape_set_slot0; exact S|exact S].
+Qed.
+
 Lemma unlock_shape fuel : forall s m, shape s -> shape (unlock fuel s m).
 Proof.
   induction fuel as [|f IH]; intros s m [A B]; cbn [unlock].
   - destruct (waitq (gmx s m)); split; cbn [set_mx set_err mxs slots]; rewrite ?set_nth_length; assumption.
   - destruct (waitq (gmx s m)) as [|k r]; [split; cbn [set_mx mxs slots]; rewrite ?set_nth_length; assumption|].
+    fold (relf f). apply relfold_shape; [exact IH|].
     match goal with |- shape (match ?o with _ => _ end) => destruct o end; [apply IH|];
       split; cbn [set_slot set_mx mxs slots]; rewrite ?set_nth_length; assumption.
 Qed.
@@ -206,14 +255,20 @@ Definition OK (s : wst) : Prop := WI s None /\ shape s.
 
 (* ---------- a slot that no pending callback targets is not touched by a hand-over chain ---------- *)
 Definition untargeted (s : wst) (j : nat) : Prop :=
-  forall x k, In x (mxs s) -> In k (waitq x) -> wslot (gwt s k) <> j.
+  forall x k, In x (mxs s) -> In k (waitq x) -> wslot (gwt s k) <> j /\ ~ In j (wrel (gwt s k)).
 
 Lemma targeted_false s j : targeted s j = false -> untargeted s j.
 Proof.
-  unfold targeted, untargeted. intros H x k Hx Hk E.
-  assert (T : existsb (fun x => existsb (fun k => Nat.eqb (wslot (gwt s k)) j) (waitq x)) (mxs s) = true).
-  { apply existsb_exists. exists x. split; [exact Hx|]. apply existsb_exists. exists k. split; [exact Hk|]. apply Nat.eqb_eq. exact E. }
-  congruence.
+  unfold targeted, untargeted. intros H x k Hx Hk.
+  assert (F : (Nat.eqb (wslot (gwt s k)) j || existsb (Nat.eqb j) (wrel (gwt s k)))%bool = false).
+  { destruct (Nat.eqb (wslot (gwt s k)) j || existsb (Nat.eqb j) (wrel (gwt s k)))%bool eqn:E; [|reflexivity]. exfalso.
+    assert (T : existsb (fun x => existsb (fun k => Nat.eqb (wslot (gwt s k)) j || existsb (Nat.eqb j) (wrel (gwt s k)))%bool (waitq x)) (mxs s) = true).
+    { apply existsb_exists. exists x. split; [exact Hx|]. apply existsb_exists. exists k. split; [exact Hk|exact E]. }
+    congruence. }
+  apply orb_false_iff in F. destruct F as [F1 F2]. split.
+  - apply Nat.eqb_neq. exact F1.
+  - intro Q. assert (existsb (Nat.eqb j) (wrel (gwt s k)) = true); [|congruence].
+    apply existsb_exists. exists j. split; [exact Q|apply Nat.eqb_refl].
 Qed.
 
 Lemma In_set_nth {A} (l : list A) i x y : In y (set_nth l i x) -> y = x \/ In y l.
@@ -225,6 +280,21 @@ Qed.
 
 Lemma gmx_in s m : m < length (mxs s) -> In (gmx s m) (mxs s).
 Proof. intros L. unfold gmx. apply nth_In. exact L. Qed.
+
+Lemma relfold_keep f j :
+  (forall s m, untargeted s j -> gslot (unlock f s m) j = gslot s j /\ untargeted (unlock f s m) j) ->
+  forall l s, ~ In j l -> untargeted s j ->
+  gslot (fold_left (relf f) l s) j = gslot s j /\ untargeted (fold_left (relf f) l s) j.
+Proof.
+  intros H. induction l as [|a l IHl]; intros s N U; cbn [fold_left]; [split; [reflexivity|exact U]|].
+  assert (Na : a <> j) by (intro; subst; apply N; left; reflexivity).
+  assert (Q : gslot (relf f s a) j = gslot s j /\ untargeted (relf f s a) j).
+  { unfold relf. destruct (gslot s a) as [m2|]; [|split; [reflexivity|exact U]].
+    destruct (H (set_slot s a None) m2) as [A B]; [exact U|]. split; [|exact B].
+    rewrite A. unfold gslot. cbn [set_slot slots]. apply nth_set_other. exact Na. }
+  destruct Q as [Q1 Q2]. destruct (IHl (relf f s a)) as [A B]; [intro; apply N; right; assumption|exact Q2|].
+  split; [rewrite A; exact Q1|exact B].
+Qed.
 
 Lemma unlock_keep fuel : forall s m j, untargeted s j ->
   gslot (unlock fuel s m) j = gslot s j /\ untargeted (unlock fuel s m) j.
@@ -238,8 +308,7 @@ Proof.
       apply In_set_nth in Hx. destruct Hx as [->|Hx]; [contradiction|]. eapply U; eassumption.
     + destruct (le_lt_dec (length (mxs s)) m) as [G|G].
       { unfold gmx in Q. rewrite nth_overflow in Q by exact G. discriminate. }
-      assert (Nk : wslot (gwt s k) <> j).
-      { apply (U (gmx s m) k); [apply gmx_in; exact G|rewrite Q; left; reflexivity]. }
+      destruct (U (gmx s m) k) as [Nk Nr]; [apply gmx_in; exact G|rewrite Q; left; reflexivity|].
       set (s1 := set_mx s m (mkM true r)).
       set (s2 := mkWS (mxs s1) (slots s1) (wts s1) (runlog s1 ++ [k]) (werr s1)).
       set (s3 := set_slot s2 (wslot (gwt s2 k)) (Some m)).
@@ -250,15 +319,21 @@ Proof.
         - eapply U; eassumption. }
       assert (G3 : gslot s3 j = gslot s j).
       { unfold gslot, s3. cbn [set_slot slots]. apply nth_set_other. exact Nk. }
-      change (wslot (gwt s2 k)) with (wslot (gwt s k)) in *.
-      destruct (gslot s2 (wslot (gwt s k))) as [m'|].
-      * destruct (IH s3 m' j U3) as [A B]. split; [rewrite A; exact G3|exact B].
-      * split; [exact G3|exact U3].
+      change (wslot (gwt s2 k)) with (wslot (gwt s k)) in *. change (wrel (gwt s2 k)) with (wrel (gwt s k)).
+      fold (relf f).
+      assert (S4 : gslot (match gslot s2 (wslot (gwt s k)) with Some m' => unlock f s3 m' | None => s3 end) j = gslot s j /\
+                   untargeted (match gslot s2 (wslot (gwt s k)) with Some m' => unlock f s3 m' | None => s3 end) j).
+      { destruct (gslot s2 (wslot (gwt s k))) as [m'|].
+        - destruct (IH s3 m' j U3) as [A B]. split; [rewrite A; exact G3|exact B].
+        - split; [exact G3|exact U3]. }
+      destruct S4 as [A4 U4].
+      destruct (relfold_keep f j (fun s0 m0 => IH s0 m0 j) (wrel (gwt s k)) _ Nr U4) as [A B].
+      split; [rewrite A; exact A4|exact B].
 Qed.
 
 Definition valid (o : oop) : Prop :=
   match o with
-  | OTry m j | OCb m j => m < NM /\ j < NS
+  | OTry m j | OCb m j _ => m < NM /\ j < NS
   | ORel j | ODestroy j | OBool j => j < NS
   | OMove i j | OCtor i j => i < NS /\ j < NS
   | OProbe m => m < NM
@@ -283,14 +358,14 @@ Proof. intros [A B]. split; cbn [set_mx mxs slots]; rewrite ?set_nth_length; ass
 (* every operation preserves the invariant *)
 Lemma wop_inv s o : OK s -> valid o -> OK (fst (wop s o)).
 Proof.
-  intros [I SH] V. pose proof SH as [LM LS]. destruct o as [m j|m j|j|j|i j|i j|j|m]; cbn [valid wop] in *.
+  intros [I SH] V. pose proof SH as [LM LS]. destruct o as [m j|m j rl|j|j|i j|i j|j|m]; cbn [valid wop] in *.
   - destruct V as [Vm Vj]. destruct (locked (gmx s m)) eqn:Lk; cbn [fst].
     + split; [apply store_inv; [exact I|lia]|apply store_shape; exact SH].
     + split; [apply store_inv; [apply lock_inv; [exact I|exact Lk|lia]|cbn; lia]|apply store_shape; apply shape_set_mx; exact SH].
   - destruct V as [Vm Vj]. destruct (locked (gmx s m)) eqn:Lk; cbn [fst].
     + split; [|split; cbn [mxs slots]; rewrite ?set_nth_length; assumption].
       set (k := length (wts s)). assert (Lt : m < length (mxs s)) by lia.
-      set (s' := mkWS (set_nth (mxs s) m (mkM true (waitq (gmx s m) ++ [k]))) (slots s) (wts s ++ [mkW j m]) (runlog s) (werr s)).
+      set (s' := mkWS (set_nth (mxs s) m (mkM true (waitq (gmx s m) ++ [k]))) (slots s) (wts s ++ [mkW j m rl]) (runlog s) (werr s)).
       assert (G : forall m', gmx s' m' = if Nat.eqb m' m then mkM true (waitq (gmx s m) ++ [k]) else gmx s m').
       { intros m'. unfold gmx, s'. cbn [mxs]. destruct (Nat.eqb_spec m' m) as [->|N]; [apply nth_set_same; exact Lt|apply nth_set_other; auto]. }
       assert (GW : forall x, x < length (wts s) -> gwt s' x = gwt s x).
@@ -299,7 +374,7 @@ Proof.
       * intros m'. rewrite G. pose proof (w_cnt s _ I m') as C. change (held s' m') with (held s m').
         destruct (Nat.eqb_spec m' m) as [->|N]; [|exact C]. cbn [locked]. rewrite Lk in C. exact C.
       * intros m'. rewrite G. destruct (Nat.eqb m' m); [reflexivity|apply (w_wait s _ I)].
-      * intros m' k'. rewrite G. change (slots s') with (slots s). change (wts s') with (wts s ++ [mkW j m]). rewrite app_length. cbn [length].
+      * intros m' k'. rewrite G. change (slots s') with (slots s). change (wts s') with (wts s ++ [mkW j m rl]). rewrite app_length. cbn [length].
         assert (Old : forall mm, In k' (waitq (gmx s mm)) -> k' < length (wts s) + 1 /\ wslot (gwt s' k') < length (slots s)).
         { intros mm Hk. destruct (w_tgt s _ I mm k' Hk) as [A B]. rewrite GW by exact A. lia. }
         destruct (Nat.eqb_spec m' m) as [->|N]; [|apply Old].
@@ -321,7 +396,7 @@ Proof.
     assert (E1 : gslot (destroy s j) j = None).
     { unfold destroy. destruct (gslot s j) as [m|] eqn:E; [|exact E].
       destruct (unlock_keep (pending (set_slot s j None)) (set_slot s j None) m j) as [A _].
-      - intros x k Hx Hk. exact (targeted_false s j T x k Hx Hk).
+      - exact (targeted_false s j T).
       - rewrite A. unfold gslot. cbn [set_slot slots]. apply nth_set_same. lia. }
     set (s1 := destroy s j) in *.
     split; [|apply shape_set_slot; apply shape_set_slot; exact SH1].
